@@ -16,7 +16,7 @@ verus!{
 #[verifier::external_type_specification] pub struct ExFileId(FileId);
 #[verifier::external_type_specification] pub struct ExFileRange(FileRange);
 #[verifier::external_type_specification] pub struct ExFilePosition(FilePosition);
-#[verifier::external_type_specification] #[verifier::external_body] pub struct ExFilePath(FilePath);
+#[verifier::external_type_specification] pub struct ExFilePath(FilePath);
 #[verifier::external_type_specification] #[verifier::external_body] pub struct ExFileSet(FileSet);
 #[verifier::external_type_specification] #[verifier::external_body] pub struct ExAnalysis(Analysis);
 #[verifier::external_type_specification] #[verifier::external_body] pub struct ExAnalysisHost(AnalysisHost);
@@ -36,10 +36,33 @@ verus!{
 #[verifier::external_type_specification] pub struct ExLspRange(lsp_types::Range);
 #[verifier::external_type_specification] #[verifier::external_body] pub struct ExResponseError(async_lsp::ResponseError);
 #[verifier::external_type_specification] #[verifier::external_body] #[verifier::reject_recursive_types(T)] pub struct ExRwLock<T: ?Sized>(std::sync::RwLock<T>);
+pub assume_specification<T> [std::sync::RwLock::<T>::write] (l: &std::sync::RwLock<T>) -> (r: Result<std::sync::RwLockWriteGuard<'_, T>, std::sync::PoisonError<std::sync::RwLockWriteGuard<'_, T>>>)
+    where T: std::marker::MetaSized + ?Sized
+    ensures r is Ok;
 /// ASSUMED: the lock around the virtual file system is never poisoned (no writer panics while holding it)
 pub assume_specification<T> [std::sync::RwLock::<T>::read] (l: &std::sync::RwLock<T>) -> (r: Result<std::sync::RwLockReadGuard<'_, T>, std::sync::PoisonError<std::sync::RwLockReadGuard<'_, T>>>)
     where T: std::marker::MetaSized + ?Sized
     ensures r is Ok;
+
+// ---- C12: editor buffers vs. disk
+pub use std::path::PathBuf;
+#[verifier::external_type_specification] #[verifier::external_body] pub struct ExPathBuf(PathBuf);
+#[verifier::external_type_specification] #[verifier::external_body] pub struct ExIoError(std::io::Error);
+/// the text of the file on disk (None: unreadable); ASSUMED stable while the server runs
+pub uninterp spec fn disk_text(p: &PathBuf) -> Option<String>;
+/// what reading a path yields, as a function of the value passed (a `&PathBuf` here)
+pub uninterp spec fn disk_read<P>(path: P) -> Option<String>;
+pub assume_specification<P: AsRef<std::path::Path>> [std::fs::read_to_string::<P>] (path: P) -> (r: Result<String, std::io::Error>)
+    ensures match r { Ok(s) => disk_read(path) == Some(s), Err(_) => disk_read(path) is None };
+#[verifier::external_trait_specification]
+pub trait ExFileSystem {
+    type ExternalTraitSpecificationFor: ide::file_system::FileSystem;
+    fn assign_or_get_file_id(&mut self, path: FilePath) -> FileId;
+    fn path_for_file(&self, file_id: &FileId) -> &FilePath;
+    fn read_content(&self, file_path: &FilePath) -> Option<String>;
+}
+/// A-hash: FilePath (a PathBuf newtype with derived Eq/Hash) obeys vstd's key model
+pub broadcast axiom fn ax_filepath_key_model() ensures #[trigger] vstd::std_specs::hash::obeys_key_model::<FilePath>();
 /// the file whose text the line index was computed from
 pub uninterp spec fn li_file(l: &LineIndex) -> FileId;
 
